@@ -20,4 +20,4 @@ package set
 //@ o-result-fresh
 //@ o-pure
 //@ o-ensures: [set] r != nil && forall k val :: (k in r) <==> exists j int :: 0 <= j && j < len(list) && list[j] == k
-//@ o-loop: 1: invariant set != nil && forall k val :: (k in set) <==> exists j int :: 0 <= j && j < $i && list[j] == k
+//@ o-loop: 1: invariant $out0 != nil && forall k val :: (k in $out0) <==> exists j int :: 0 <= j && j < $i && list[j] == k
